@@ -42,7 +42,8 @@ EXPLANATION = (
     "(R6) the emission sites of one numbered name template (`inherited%i__%s`: formal parameter of __init__ and argument of the parent's __init__) stand under the same schema predicates. Not decided: that the generated text is valid Python beyond identifiers, attribute/constructor argument order in detail, "
     "select members and enumeration items being complete."
     " (R7) the scheduler of the defined-type classes waits for the type whose name the class-header emitter prints as the base class (same expression of the type on both sides): the emission order is a topological order of the base relation, which Python needs at import."
-    " (R2s) the keyword look-up compares the word with every table entry: a scan that stops early is accepted only if the table is sorted.")
+    " (R2s) the keyword look-up compares the word with every table entry: a scan that stops early is accepted only if the table is sorted."
+    " (R7) the scheduler of defined types waits for the same type expression that the class-header emitter names as base class (locals resolved through their assignments).")
 
 WFLAGS = ("-Wno-everything", "-Wimplicit-function-declaration", "-Wint-conversion", "-Wincompatible-pointer-types", "-Wreturn-type")
 GROUPS = ("implicit-function-declaration", "int-conversion", "incompatible-pointer-types", "return-type")
